@@ -194,7 +194,7 @@ func (r *Reader) ReadPacket() (Packet, error) {
 		return nil, err
 	}
 	fh := &FixHeader{PacketType: first >> 4, Flags: first & 15} //设置FixHeader
-	length, err := EncodeRemainLength(r.bufr)
+	length, minimal, err := readVariableByteInteger(r.bufr)
 	if err != nil {
 		return nil, err
 	}
@@ -205,6 +205,10 @@ func (r *Reader) ReadPacket() (Packet, error) {
 	}
 	if p, ok := packet.(*Connect); ok {
 		r.version = p.Version
+	}
+	if !minimal && r.version == Version5 {
+		// MQTT 3.1.1 does not demand the minimal form of the remaining length, MQTT 5 does [MQTT-1.5.5-1]
+		return nil, codes.ErrMalformed
 	}
 	return packet, err
 }
@@ -289,9 +293,24 @@ func DecodeRemainLength(length int) ([]byte, error) {
 // EncodeRemainLength 读remainLength,如果格式错误返回 error
 //
 // EncodeRemainLength reads the remain length bytes from bufio.Reader and returns length int.
+// The integer must be encoded with the minimum number of bytes [MQTT-1.5.5-1].
 func EncodeRemainLength(r io.ByteReader) (int, error) {
+	length, minimal, err := readVariableByteInteger(r)
+	if err != nil {
+		return 0, err
+	}
+	if !minimal {
+		return 0, codes.ErrMalformed
+	}
+	return length, nil
+}
+
+// readVariableByteInteger reads a variable byte integer of at most four bytes and reports
+// whether it was encoded with the minimum number of bytes.
+func readVariableByteInteger(r io.ByteReader) (int, bool, error) {
 	var vbi uint32
 	var multiplier uint32
+	minimal := true
 	for {
 		digit, err := r.ReadByte()
 		if err != nil {
@@ -299,18 +318,23 @@ func EncodeRemainLength(r io.ByteReader) (int, error) {
 				// the input ends inside the variable byte integer
 				err = io.ErrUnexpectedEOF
 			}
-			return 0, err
+			return 0, false, err
 		}
 		vbi |= uint32(digit&127) << multiplier
 		if vbi > 268435455 {
-			return 0, codes.ErrMalformed
+			return 0, false, codes.ErrMalformed
 		}
 		if (digit & 128) == 0 {
+			minimal = digit != 0 || multiplier == 0
 			break
 		}
 		multiplier += 7
+		if multiplier > 21 {
+			// a fifth byte would follow
+			return 0, false, codes.ErrMalformed
+		}
 	}
-	return int(vbi), nil
+	return int(vbi), minimal, nil
 }
 
 // EncodeUTF8String encodes the bytes into UTF-8 encoded strings, returns the encoded bytes, bytes size and error.
